@@ -48,10 +48,10 @@ Lemma gen_eval children fuel L r T :
 Proof. unfold g_eval. now rewrite gen_instances. Qed.
 
 Lemma gen_pull_cur L seen cur : g_pull_cur L seen cur = pull_cur L seen cur.
-Proof. induction cur as [|w t IH]; simpl; auto. unfold g_deref, deref. now rewrite IH. Qed.
+Proof. induction cur as [|w t IH]; simpl; auto; try (unfold g_deref, deref; now rewrite IH). Qed.
 
 Lemma gen_pull_classes L r seen cs : g_pull_classes L r seen cs = pull_classes L r seen cs.
-Proof. induction cs as [|c cs IH]; simpl; auto. now rewrite gen_pull_cur, IH. Qed.
+Proof. induction cs as [|c cs IH]; simpl; auto; try (now rewrite gen_pull_cur, IH). Qed.
 
 Definition GenIsModel : Prop :=
   (forall r w, g_add_node r w = add_node r w) /\
